@@ -22,6 +22,9 @@ def dispatch(prop, tier, seed):
     if prop == "C11":
         from . import eng_lruconc
         return eng_lruconc.check(prop, tier, seed)
+    if prop == "C12":
+        from . import eng_cprop
+        return eng_cprop.check(prop, tier, seed)
     if prop == "C09":
         from . import eng_tee
         return eng_tee.check(prop, tier, seed)
